@@ -49,7 +49,7 @@ def _one(prop, t, repo, target_dir):
                 return dict(name=name, ok=True, skipped=True, detail='fix commit %s not found in %s' % (t['commit'], repo))
             p = subprocess.run(['patch', '-R', '-p1', '--no-backup-if-mismatch', '-s'], input=diff.stdout, text=True, cwd=d, stdout=subprocess.PIPE, stderr=subprocess.STDOUT)
         else:
-            diff = open(os.path.join(VERIF, 'seeded', t['seed'], 'patch.diff')).read()
+            diff = open(t['patch'] if t['kind'] == 'benign' else os.path.join(VERIF, 'seeded', t['seed'], 'patch.diff')).read()
             p = subprocess.run(['patch', '-p1', '--no-backup-if-mismatch', '-s'], input=diff, text=True, cwd=d, stdout=subprocess.PIPE, stderr=subprocess.STDOUT)
         if p.returncode != 0:
             return dict(name=name, ok=True, skipped=True, detail='patch does not apply on the current tree: ' + p.stdout[-200:])
@@ -57,6 +57,9 @@ def _one(prop, t, repo, target_dir):
         import run
         known, _ = run.load_known()
         keys = [k for k in keys if (prop, k) not in known]
+        if t['kind'] == 'benign':
+            return dict(name=name, ok=not keys, kind='benign', expected=[], reported=keys[:3],
+                        detail='silent on a behaviour-preserving variant' if not keys else 'FALSE ALARM on a behaviour-preserving variant')
         want = t['expect'][prop]
         hit = [k for k in keys if any(w == '*' or w in k for w in want)]
         return dict(name=name, ok=bool(hit), kind=t['kind'], expected=want, reported=hit[:3] or keys[:3],
@@ -76,6 +79,9 @@ def run_for(prop, seed=0, repo='/repo', jobs=None):
     except Exception as e:
         return [dict(name='expected.json', ok=False, detail='cannot read %s: %s' % (EXPECT, e))]
     tests = [t for t in exp['tests'] if prop in t['expect']]
+    # behaviour-preserving variants (selftest/benign/*.diff): the property's rules must stay silent on each of them
+    for bp in sorted(glob.glob(os.path.join(VERIF, 'selftest', 'benign', '*.diff'))):
+        tests.append(dict(name='benign:' + os.path.basename(bp)[:-5], kind='benign', patch=bp, expect={prop: []}))
     if not tests:
         return []
     import queue, threading
